@@ -17,6 +17,8 @@ Section ObjInd.
   Hypothesis HArr : forall dims xs et adj, Forall P xs -> P et -> P (Arr dims xs et adj).
   Hypothesis HHash : forall kvs, Forall (fun kv => P (fst kv) /\ P (snd kv)) kvs -> P (Hash kvs).
   Hypothesis HLam : forall ll doc body, Forall P ll -> Forall P body -> P (Lam ll doc body).
+  Hypothesis HInst : forall f slots, Forall (fun kv => P (snd kv)) slots -> P (Inst f slots).
+  Hypothesis HFlv : forall n ivars i g s d, Forall (fun kv => P (snd kv)) ivars -> P (Flv n ivars i g s d).
   Hypothesis HOpaque : forall w, P (Opaque w).
   Fixpoint obj_ind2 (v : obj) : P v :=
     let fix all (l : list obj) : Forall P l :=
@@ -33,6 +35,16 @@ Section ObjInd.
                                 | (k, w) :: r => Forall_cons (k, w) (conj (obj_ind2 k) (obj_ind2 w)) (allp r)
                                 end) kvs)
     | Lam ll doc body => HLam ll doc body (all ll) (all body)
+    | Inst f slots => HInst f slots ((fix alls (l : list (string * obj)) : Forall (fun kv => P (snd kv)) l :=
+                                        match l with
+                                        | [] => Forall_nil _
+                                        | (k, w) :: r => Forall_cons (k, w) (obj_ind2 w) (alls r)
+                                        end) slots)
+    | Flv n ivars i g s d => HFlv n ivars i g s d ((fix alls (l : list (string * obj)) : Forall (fun kv => P (snd kv)) l :=
+                                        match l with
+                                        | [] => Forall_nil _
+                                        | (k, w) :: r => Forall_cons (k, w) (obj_ind2 w) (alls r)
+                                        end) ivars)
     | Opaque w => HOpaque w
     end.
 End ObjInd.
@@ -312,7 +324,7 @@ Proof.
   destruct xs as [|x1 [|x2 [|x3 xs]]]; try discriminate.
   - destruct x1; discriminate.
   - destruct x1; try discriminate. cbn [ll_elem_ok] in Ha.
-    apply andb_true_iff in Ha. destruct Ha as [Ha _]. apply andb_true_iff in Ha. destruct Ha as [_ Hn].
+    apply andb_true_iff in Ha. destruct Ha as [_ Hn].
     destruct x2; try reflexivity. discriminate.
   - destruct x1; discriminate.
 Qed.
@@ -331,6 +343,13 @@ Proof.
     + destruct b1; reflexivity.
     + destruct b1; try reflexivity. discriminate.
   - cbn [app]. cbn [orb] in H3. destruct body as [|b1 bs]; [discriminate|]. reflexivity.
+Qed.
+
+(* the lambda list is written as it is: a default value is a form and stays that form (not its load form) *)
+Lemma lambda_list_verbatim : forall ll doc body,
+  exists rest, load_form (Lam ll doc body) = Ok (L (Sym "lambda" :: mkL ll :: rest)) /\ elems_of (mkL ll) = Some ll.
+Proof.
+  intros ll doc body. eexists. split; [reflexivity|]. destruct ll; reflexivity.
 Qed.
 
 (* ---- the main theorem ---- *)
@@ -420,6 +439,8 @@ Proof.
   - (* Lam *)
     cbn [loadable_in] in Hl. apply andb_true_iff in Hl. destruct Hl as [Hl _].
     eexists. split; [reflexivity|]. intros e He. apply eval_lambda_form. exact Hl.
+  - discriminate.
+  - discriminate.
   - discriminate.
 Qed.
 
